@@ -399,6 +399,8 @@ struct Reporter {
   void nontrivial(const std::string& key) { distinct.insert(hash_str(key)); }
   void nontrivial(uint64_t key) { distinct.insert(key); }
   bool want_sample() const { return samples.size() < max_samples; }
+  // sparse sampling that still guarantees at least one sample per process
+  bool want_sample(uint64_t id, uint64_t every) const { return samples.empty() || (samples.size() < max_samples && id % every == 0); }
   void sample(const std::string& json) {
     if (samples.size() < max_samples) samples.push_back(json);
   }
